@@ -14,6 +14,10 @@ def run(chk):
     spec = dict(dtypes=[np.float64, np.complex128], anns=[(), ("SelfAdjoint",), ("PSD",), ("Unitary",)])
     rp = run_rules(chk, "C02", ["transpose", "adjoint"], default_spec=spec)
     methods.run_methods(chk, "C02", which=("_rmatmat", "__rmatmul__"))
+    # bounded stand-in: the real left products / transposes / adjoints of one operator of every kind against dense NumPy (sees kernels that the
+    # rule-level runs only know through their contracts, and any _rmatmat a kind acquires later)
+    from props import native_diff
+    native_diff.run(chk, "C02")
     # the transpose / adjoint rules return a SelfAdjoint operator itself: for a slice that label must mean 'rows and columns select the same index sequence'
     from props import c05
     for anns in (("SelfAdjoint",), ("PSD",)):
